@@ -137,10 +137,19 @@ NonTrivial == \E n \in 1..NN, tv \in {"u", "v"} : Cardinality(EdgesInto(n, tv)) 
    D42 - with vectorisation, a merged node whose input receives no edge while the same input of another merged node
          (same kind) does: its non-zero declared default is lost or added on top of its same-node source;
    D43 - without vectorisation, two parallel edges that both use an edge template fail loudly. *)
+UsesTemplate(e) == e.tm \/ HasRef(e)
+(* D42 needs more than partial coverage: the covered members of the group receive that input from several sources
+   (two source variables / kinds, or a same-node operator next to the edges) or through an edge template; with a
+   single plain source the untargeted members keep their declared default (checked) *)
+GroupEdges(k, tv) == {q \in 1..Len(Edges) : Nodes[Edges[q].t].kind = k /\ Edges[q].tv = tv}
+SrcKeys(k, tv) == {<<Nodes[Edges[q].s].kind, Edges[q].sv>> : q \in GroupEdges(k, tv)}
+ComplexInput(k, tv) == \/ (tv = "u" /\ HasProd(k))
+                       \/ Cardinality(SrcKeys(k, tv)) >= 2
+                       \/ \E q \in GroupEdges(k, tv) : UsesTemplate(Edges[q])
 MergedDefaultMismatch ==
   \E n1, n2 \in 1..NN, tv \in {"u", "v"} : n1 # n2 /\ Nodes[n1].kind = Nodes[n2].kind
                                            /\ EdgesInto(n1, tv) # {} /\ EdgesInto(n2, tv) = {}
-UsesTemplate(e) == e.tm \/ HasRef(e)
+                                           /\ ComplexInput(Nodes[n1].kind, tv)
 ParallelTemplateEdges ==
   \E p, q \in 1..Len(Edges) : p < q /\ UsesTemplate(Edges[p]) /\ UsesTemplate(Edges[q]) /\ Edges[p].s = Edges[q].s /\ Edges[p].sv = Edges[q].sv
                                /\ Edges[p].t = Edges[q].t /\ Edges[p].tv = Edges[q].tv
